@@ -21,7 +21,8 @@ RULE = ('threshold_proportional: all symmetric matrices over {0,1,2,3} on 4 node
         'other utilities: all matrices over {-2,-1,0,1,2} on 3 nodes and symmetric on 4 nodes x thr in every value '
         'and midpoint; non-trivial = (matrix,p) where p*M falls on x.5, or where weights tie across the cut, or '
         'fewer connections exist than requested')
-ASSUMPTIONS = ['float64 inputs; p values are dyadic (exact products) or far from a .5 boundary',
+ASSUMPTIONS = ['with copy=False the argument is passed C-ordered, Fortran-ordered and as a strided view (the contract and the values must not depend on layout)',
+               'float64 inputs; p values are dyadic (exact products) or far from a .5 boundary',
                'expected count = round-half-up of the exact rational p*M']
 
 P_GRID = [j / 32.0 for j in range(33)] + [0.1, 0.3, 0.7]
@@ -76,8 +77,14 @@ def check_copy(t, fname, case, arg, before, out, copy):
 
 
 def check_tp(t, W, p, copy, case):
+    res = False
+    for lname, arg in (layouts(W) if (copy is False and p in (0.25, 0.5, 1.0)) else [('C', W.copy())]):
+        res = _check_tp(t, W, arg, p, copy, dict(case, layout=lname))
+    return res
+
+
+def _check_tp(t, W, arg, p, copy, case):
     n = len(W)
-    arg = W.copy()
     st, out = guarded(bct.threshold_proportional, arg, p, copy=copy)
     if st != 'ok':
         t.viol('threshold_proportional', 'raises', case, observed=out)
@@ -117,14 +124,44 @@ def check_tp(t, W, p, copy, case):
     return frac == Fraction(1, 2) or tie or en > len(existing)
 
 
+def layouts(W):
+    """the same matrix as a C-ordered array, a Fortran-ordered array and a strided view into a larger buffer"""
+    yield 'C', W.copy()
+    yield 'F', np.asfortranarray(W.copy())
+    big = np.zeros((2 * W.shape[0], 2 * W.shape[1]))
+    big[::2, ::2] = W
+    yield 'strided', big[::2, ::2]
+
+
 def call_util(t, fname, case, f, W, copy, *extra):
-    arg = W.copy()
+    out = None
+    for lname, arg in (layouts(W) if copy is False else [('C', W.copy())]):
+        out = _call_util(t, fname, dict(case, layout=lname), f, W, arg, copy, *extra)
+        if out is None:
+            return None
+    return out
+
+
+def _call_util(t, fname, case, f, W, arg, copy, *extra):
     st, out = guarded(f, arg, *extra, copy=copy)
     if st != 'ok':
         t.viol(fname, 'raises', case, observed=out)
         return None
     check_copy(t, fname, case, arg, W, out, copy)
+    if case.get('layout') != 'C' and hasattr(f, '__name__') and f.__name__ in REF:
+        # the result must not depend on the memory layout of the argument
+        if not orc.close(np.asarray(out, dtype=float), REF[f.__name__](W, *extra)):
+            t.viol(fname, 'definition', case, observed=out, expected=REF[f.__name__](W, *extra))
+            return None
     return np.asarray(out, dtype=float)
+
+
+REF = {
+    'binarize': lambda W: (W != 0).astype(float),
+    'invert': lambda W: np.where(W != 0, 1.0 / np.where(W != 0, W, 1.0), 0.0),
+    'normalize': lambda W: W / np.max(np.abs(W)),
+    'threshold_absolute': lambda W, thr: np.where(orc.offdiag(len(W)) & (W >= thr), W, 0.0),
+}
 
 
 def check_utils(t, W, case):
